@@ -1135,7 +1135,12 @@ impl<T: Object+DataSize> NameTree<T> {
                     if path.contains(&tree_ref.get_inner()) {
                         bail!("name tree node {:?} is its own descendant", tree_ref);
                     }
-                    let tree = r.get(tree_ref)?;
+                    let tree = match r.get(tree_ref) {
+                        Ok(tree) => tree,
+                        // a kid that refers to a missing object is null: nothing below it
+                        Err(ref e) if is_missing_reference(&Primitive::Reference(tree_ref.get_inner()), e) => continue,
+                        Err(e) => return Err(e)
+                    };
                     path.push(tree_ref.get_inner());
                     let result = tree.walk_inner(r, callback, path);
                     path.pop();
@@ -1311,7 +1316,12 @@ impl<T: Object+DataSize> NumberTree<T> {
                     if path.contains(&tree_ref.get_inner()) {
                         bail!("number tree node {:?} is its own descendant", tree_ref);
                     }
-                    let tree = r.get(tree_ref)?;
+                    let tree = match r.get(tree_ref) {
+                        Ok(tree) => tree,
+                        // a kid that refers to a missing object is null: nothing below it
+                        Err(ref e) if is_missing_reference(&Primitive::Reference(tree_ref.get_inner()), e) => continue,
+                        Err(e) => return Err(e)
+                    };
                     path.push(tree_ref.get_inner());
                     let result = tree.walk_inner(r, callback, path);
                     path.pop();
